@@ -61,9 +61,9 @@ ColsOf(s) == (s*ColsPer)..(s*ColsPer + ColsPer - 1)
 AllCols == 0..(S*ColsPer - 1)
 VCKinds == {"Sum", "Min", "Max"}
 
-VARIABLES phase, kut, sd, part, lim, nn, owner, coord, nacc, ngot, ndone, cacc, cgot, hist
-vars == <<phase, kut, sd, part, lim, nn, owner, coord, nacc, ngot, ndone, cacc, cgot, hist>>
-MView == <<phase, kut, sd, part, lim, nn, owner, coord, nacc, ngot, ndone, cacc, cgot>>
+VARIABLES phase, kut, sd, part, exv, lim, nn, owner, coord, nacc, ngot, ndone, cacc, cgot, hist
+vars == <<phase, kut, sd, part, exv, lim, nn, owner, coord, nacc, ngot, ndone, cacc, cgot, hist>>
+MView == <<phase, kut, sd, part, exv, lim, nn, owner, coord, nacc, ngot, ndone, cacc, cgot>>
 
 \* mode parts: one reducer (the "kind under test" kut, chosen in Init) per behaviour;
 \* mode data: all kinds at once, derived from the same data
@@ -204,11 +204,12 @@ Ans(k, D, T, l) ==
       [] k = "GroupBy" -> AnsGroup(D, T, l)
       [] k = "Count" -> AnsCount(D, T)
       [] k = "Row" -> AnsRow(D, T)
+      [] k = "Bool" -> \E x \in SC(T) : G \in D[x[1]][x[2]].g     \* ClearRow(g=G): some shard held the row
 
 \* ------------------------------------------------------------ expected final result
 \* from the partial results, by definition (not by folding)
-ExpectParts(k, l) ==
-    LET P(s) == part[s][k] IN
+ExpectPartsP(PP, k, l) ==
+    LET P(s) == PP[s][k] IN
     CASE k = "Sum" -> [val |-> SumOver(Shards, [s \in Shards |-> P(s).val]),
                        count |-> SumOver(Shards, [s \in Shards |-> P(s).count])]
       [] k = "Min" -> LET W == {s \in Shards : P(s).count > 0} IN
@@ -226,6 +227,8 @@ ExpectParts(k, l) ==
       [] k = "Row" -> UNION {P(s) : s \in Shards}
       [] k = "Bool" -> \E s \in Shards : P(s)
 
+ExpectParts(k, l) == ExpectPartsP(part, k, l)
+
 Expect(k) == IF Mode = "data" THEN Ans(k, sd, Shards, lim) ELSE ExpectParts(k, lim)
 
 \* ------------------------------------------------------------ state machine
@@ -235,6 +238,7 @@ Init ==
     /\ kut \in IF Mode = "parts" THEN Kinds ELSE {"all"}
     /\ sd = NoData
     /\ part = [s \in Shards |-> [k \in KS |-> Ident(k)]]
+    /\ exv = << >>
     /\ lim = 0 /\ nn = 0 /\ coord = 0
     /\ owner = [s \in Shards |-> 0]
     /\ nacc = << >> /\ ngot = << >> /\ ndone = {} /\ cacc = << >> /\ cgot = {}
@@ -250,14 +254,14 @@ Law ==
                                  ab_c |-> Red(k, l, Red(k, l, a, b), c), a_bc |-> Red(k, l, a, Red(k, l, b, c)),
                                  ea |-> Red(k, l, Ident(k), a), ae |-> Red(k, l, a, Ident(k))])
     /\ phase' = "done"
-    /\ UNCHANGED <<kut, sd, part, lim, nn, owner, coord, nacc, ngot, ndone, cacc, cgot>>
+    /\ UNCHANGED <<kut, sd, part, exv, lim, nn, owner, coord, nacc, ngot, ndone, cacc, cgot>>
 
 \* the limit is chosen first (the shard partials of Rows / GroupBy are truncated to it)
 ChooseLim ==
     /\ phase = "choose" /\ lim = 0
     /\ \E l \in LimsFor(kut) : lim' = l
     /\ hist' = Append(hist, [op |-> "Lim", lim |-> lim', kind |-> kut])
-    /\ UNCHANGED <<phase, kut, sd, part, nn, owner, coord, nacc, ngot, ndone, cacc, cgot>>
+    /\ UNCHANGED <<phase, kut, sd, part, exv, nn, owner, coord, nacc, ngot, ndone, cacc, cgot>>
 
 NextIdx == Len(hist) - 1       \* shards (mode parts) / columns (mode data) are filled in order
 
@@ -267,47 +271,55 @@ ChooseParts ==
        \E v \in PartDom(kut, s, lim) :
           /\ part' = [part EXCEPT ![s] = [k \in {kut} |-> v]]
           /\ hist' = Append(hist, [op |-> "Part", shard |-> s, v |-> v])
-    /\ UNCHANGED <<phase, kut, sd, lim, nn, owner, coord, nacc, ngot, ndone, cacc, cgot>>
+    /\ UNCHANGED <<phase, kut, sd, exv, lim, nn, owner, coord, nacc, ngot, ndone, cacc, cgot>>
 
 ChooseData ==
     /\ phase = "choose" /\ lim > 0 /\ Mode = "data"
-    /\ \/ /\ DataSrc = "free" /\ NextIdx \in 0..(S*ColsPer - 1)
-          /\ LET s == NextIdx \div ColsPer  c == (NextIdx % ColsPer) + 1 IN
-             \E d \in ColRec :
-               /\ sd' = [sd EXCEPT ![s][c] = d]
-               /\ hist' = Append(hist, [op |-> "Col", shard |-> s, slot |-> c, col |-> ColId(s, c),
-                                        f |-> d.f, g |-> d.g, v |-> d.v])
+    /\ \/ /\ DataSrc = "free" /\ NextIdx \in 0..(3*S*ColsPer - 1)
+          \* one attribute of one column per step (rows of f, rows of g, value)
+          /\ LET ci == NextIdx \div 3  at == NextIdx % 3
+                 s == ci \div ColsPer  c == (ci % ColsPer) + 1 IN
+             \/ /\ at = 0 /\ \E x \in SUBSET RowIds : sd' = [sd EXCEPT ![s][c].f = x]
+                /\ hist' = Append(hist, [op |-> "Col", col |-> ColId(s, c), attr |-> "f"])
+             \/ /\ at = 1 /\ \E x \in SUBSET GRows : sd' = [sd EXCEPT ![s][c].g = x]
+                /\ hist' = Append(hist, [op |-> "Col", col |-> ColId(s, c), attr |-> "g"])
+             \/ /\ at = 2 /\ \E x \in Vals \cup {NoVal} : sd' = [sd EXCEPT ![s][c].v = x]
+                /\ hist' = Append(hist, [op |-> "Col", col |-> ColId(s, c), attr |-> "v"])
        \/ /\ DataSrc = "cat" /\ Len(hist) = 1
           /\ \E d \in DOMAIN Cat :
                /\ sd' = Cat[d]
                /\ hist' = Append(hist, [op |-> "Cat", id |-> d])
-    /\ UNCHANGED <<phase, kut, part, lim, nn, owner, coord, nacc, ngot, ndone, cacc, cgot>>
+    /\ UNCHANGED <<phase, kut, part, exv, lim, nn, owner, coord, nacc, ngot, ndone, cacc, cgot>>
 
 DataChosen == IF Mode = "data"
-              THEN (IF DataSrc = "cat" THEN Len(hist) = 2 ELSE NextIdx = S*ColsPer)
+              THEN (IF DataSrc = "cat" THEN Len(hist) = 2 ELSE NextIdx = 3*S*ColsPer)
               ELSE NextIdx = S
 
 \* the data as the harness loads it: one record per column that holds anything
 DataCols == {[col |-> ColId(x[1], x[2]), shard |-> x[1], f |-> sd[x[1]][x[2]].f, g |-> sd[x[1]][x[2]].g,
               v |-> sd[x[1]][x[2]].v] : x \in SC(Shards)}
 
-\* placement: cluster size, grouping of the shards onto the nodes, coordinator
-Place ==
+\* the shard partials (mode data) and the expected answers are computed once, before the
+\* placement is chosen (a deterministic step that leaves no record)
+Derive ==
     /\ phase = "choose" /\ lim > 0 /\ DataChosen
     /\ part' = IF Mode = "data" THEN [s \in Shards |-> [k \in KS |-> Ans(k, sd, {s}, lim)]] ELSE part
-    /\ LET ex == [k \in KS |-> Expect(k)]
-           dc == IF Mode = "data" THEN DataCols ELSE {}
-       IN
-       \E n \in 1..N : \E o \in [Shards -> 0..(n-1)] : \E co \in 0..(n-1) :
+    /\ exv' = [expect |-> [k \in KS |-> Expect(k)], data |-> IF Mode = "data" THEN DataCols ELSE {}]
+    /\ phase' = "place"
+    /\ UNCHANGED <<kut, sd, lim, nn, owner, coord, nacc, ngot, ndone, cacc, cgot, hist>>
+
+\* placement: cluster size, grouping of the shards onto the nodes, coordinator
+Place ==
+    /\ phase = "place"
+    /\ \E n \in 1..N : \E o \in [Shards -> 0..(n-1)] : \E co \in 0..(n-1) :
          /\ nn' = n /\ owner' = o /\ coord' = co
          /\ nacc' = [x \in 0..(n-1) |-> [k \in KS |-> Ident(k)]]
          /\ ngot' = [x \in 0..(n-1) |-> {}]
          /\ cacc' = [k \in KS |-> Ident(k)]
          /\ hist' = Append(hist, [op |-> "Place", nodes |-> n, owner |-> [i \in 1..S |-> o[i-1]],
-                                  coord |-> co, lim |-> lim,
-                                  data |-> dc, expect |-> ex])
+                                  coord |-> co, lim |-> lim, data |-> exv.data, expect |-> exv.expect])
     /\ phase' = "run" /\ ndone' = {} /\ cgot' = {}
-    /\ UNCHANGED <<kut, sd, lim>>
+    /\ UNCHANGED <<kut, sd, part, exv, lim>>
 
 Used == {owner[s] : s \in Shards}
 ShardsOf(n) == {s \in Shards : owner[s] = n}
@@ -320,14 +332,14 @@ LocalArrive(n, s) ==
     /\ nacc' = [nacc EXCEPT ![n] = [k \in KS |-> Red(k, lim, nacc[n][k], part[s][k])]]
     /\ ngot' = [ngot EXCEPT ![n] = @ \cup {s}]
     /\ hist' = Append(hist, [op |-> "LocalArrive", node |-> n, shard |-> s, acc |-> nacc'[n]])
-    /\ UNCHANGED <<phase, kut, sd, part, lim, nn, owner, coord, ndone, cacc, cgot>>
+    /\ UNCHANGED <<phase, kut, sd, part, exv, lim, nn, owner, coord, ndone, cacc, cgot>>
 
 \* the node has reduced all its shards: its response is on its way to the coordinator
 NodeDone(n) ==
     /\ phase = "run" /\ n \in Used \ ndone /\ Complete(n)
     /\ ndone' = ndone \cup {n}
     /\ hist' = Append(hist, [op |-> "NodeDone", node |-> n])
-    /\ UNCHANGED <<phase, kut, sd, part, lim, nn, owner, coord, nacc, ngot, cacc, cgot>>
+    /\ UNCHANGED <<phase, kut, sd, part, exv, lim, nn, owner, coord, nacc, ngot, cacc, cgot>>
 
 \* a node's response reaches the coordinator's reduce loop (mapReduce)
 RemoteArrive(n) ==
@@ -337,10 +349,10 @@ RemoteArrive(n) ==
     /\ cgot' = cgot \cup {n}
     /\ phase' = IF cgot' = Used THEN "done" ELSE "run"
     /\ hist' = Append(hist, [op |-> "RemoteArrive", node |-> n, acc |-> cacc'])
-    /\ UNCHANGED <<kut, sd, part, lim, nn, owner, coord, nacc, ngot, ndone>>
+    /\ UNCHANGED <<kut, sd, part, exv, lim, nn, owner, coord, nacc, ngot, ndone>>
 
 Next ==
-    \/ Law \/ ChooseLim \/ ChooseParts \/ ChooseData \/ Place
+    \/ Law \/ ChooseLim \/ ChooseParts \/ ChooseData \/ Derive \/ Place
     \/ \E n \in 0..(N-1) : \E s \in Shards : LocalArrive(n, s)
     \/ \E n \in 0..(N-1) : NodeDone(n)
     \/ \E n \in 0..(N-1) : RemoteArrive(n)
@@ -352,10 +364,13 @@ Spec == Init /\ [][Next]_vars
 OrderIndependent == (phase = "done" /\ Mode # "laws") => \A k \in KS : cacc[k] = Expect(k)
 
 \* (M) mode data: the answer computed from the data equals the answer defined from the shard partials
-DataConsistent == (phase = "run" /\ Mode = "data") => \A k \in KS : Ans(k, sd, Shards, lim) = ExpectParts(k, lim)
+\* (evaluated in the one state per dataset that precedes the placement)
+DataConsistent == (Mode = "data" /\ phase = "choose" /\ lim > 0 /\ DataChosen) =>
+    LET PP == [s \in Shards |-> [k \in KS |-> Ans(k, sd, {s}, lim)]]
+    IN \A k \in KS : Ans(k, sd, Shards, lim) = ExpectPartsP(PP, k, lim)
 
 \* (M) a node's response is the answer over exactly the shards it owns
-NodeAnswers == (Mode = "data" /\ phase \in {"run", "done"}) =>
+NodeAnswers == (Mode = "data" /\ phase \in {"run", "done"} /\ ndone # {}) =>
     \A n \in ndone : \A k \in KS : nacc[n][k] = Ans(k, sd, ShardsOf(n), lim)
 
 \* (M) algebraic laws of every reducer over the partial-result domains and their reductions
@@ -373,7 +388,7 @@ TieCountsAdd ==
         /\ SmallerVC([val |-> v, count |-> c1], [val |-> v, count |-> c2]).count = c1 + c2
         /\ LargerVC([val |-> v, count |-> c1], [val |-> v, count |-> c2]).count = c1 + c2
 
-TypeOK == phase \in {"law", "choose", "run", "done"}
+TypeOK == phase \in {"law", "choose", "place", "run", "done"}
 
 \* (G) behaviour emission
 Emit == phase = "done" => PrintT(<<"BEH", ToJson(hist)>>)
